@@ -81,9 +81,26 @@ class StructureMetaType(MetaType):
             obj = type.__call__(cls)
             object.__setattr__(obj, "_values", {})
             object.__setattr__(obj, "_sizes", {})
+            cls._copy_defaults(obj)
             return obj
 
-        return super().__call__(*args, **kwargs)
+        obj = super().__call__(*args, **kwargs)
+        if "_values" not in obj.__dict__:
+            # Initialized with (some) values instead of parsed, the rest of the fields hold default values
+            cls._copy_defaults(obj)
+        return obj
+
+    def _copy_defaults(cls, obj: Structure) -> None:
+        """Give the instance its own copy of every mutable default value.
+
+        The generated ``__init__`` takes default values from its code constants, so without this all instances
+        would share one default array / structure object per field.
+        """
+        defaults = cls.__init__.__code__.co_consts
+        for field in cls.lookup.values():
+            value = obj.__dict__.get(field._name)
+            if isinstance(value, (list, Structure)) and any(value is default for default in defaults):
+                object.__setattr__(obj, field._name, field.type.__default__())
 
     def _update_fields(
         cls, fields: list[Field], align: bool = False, classdict: dict[str, Any] | None = None
